@@ -15,7 +15,7 @@ SITES = {
     "MatrixProduct._push_cano": ("delegate", "_update_ms"),
     "MatrixProduct._update_mps": ("run", None),      # abstract run (chain_rules.update_mps_rule)
     "Mps._evolve_tdvp_ps": ("run", None),            # abstract run with bookkeeping events (chain_rules.tdvp_bookkeeping_rule)
-    "Mps._evolve_tdvp_mu_vmf": ("function", None),
+    "Mps._evolve_tdvp_mu_vmf": ("run", None),        # same (the derivative function of the global scheme is run once)
     "Mps._evolve_tdvp_mu_cmf": ("run", None),        # same
     "TTNS.decompose_to_parent": ("function", None),
     # tree convention: the bond between a node and its child is labelled on the child (child.qn = charge of the child's subtree);
